@@ -30,7 +30,7 @@ NOT_DECIDED = ['numeric equality of printed values with an independent evaluatio
 def run(ctx):
     b = ctx.bin
     if b is None:
-        ctx.anchor_lost('C15.anchor', 'binary crate facts')
+        ctx.anchor_lost('C15.anchor', 'binary crate facts', hard=True)
         return
     divisions.run(ctx, 'C15')
     # ---------------- (1) offset coefficient
